@@ -49,16 +49,29 @@ def rows_eq(x, y, double=False):
     return len(x) == len(y) and all(r.keys() == s.keys() and all(typed_eq(r[k], s[k], double) for k in r) for r, s in zip(x, y))
 
 
-def build_state(resources, pk=False, temporal_prop=None):
-    """resources: list of (name, [(fname, ftype)], rows)"""
+TEMPORAL_FMT2 = {'date': '%Y.%m.%d', 'time': '%S-%M-%H', 'datetime': '%Y.%m.%d %H-%M-%S'}
+
+
+def build_state(resources, pk=False, temporal_prop=None, reverse_row_keys=False):
+    """resources: list of (name, [(fname, ftype)], rows).  With temporal_prop, the first field of each temporal type gets
+    one output format, the second a different one, the third none (the dumper's default)."""
     res = []
     for name, fields, rows in resources:
         fl = []
+        seen = {}
         for fn, ft in fields:
             fd = {'name': fn, 'type': ft, 'format': 'default'}
             if temporal_prop and ft in TEMPORAL_FMT:
-                fd[temporal_prop] = TEMPORAL_FMT[ft]
+                k = seen.get(ft, 0)
+                seen[ft] = k + 1
+                if k % 3 == 0:
+                    fd[temporal_prop] = TEMPORAL_FMT[ft]
+                elif k % 3 == 1:
+                    fd[temporal_prop] = TEMPORAL_FMT2[ft]
             fl.append(fd)
+        if reverse_row_keys:
+            # same cells, but each row dict lists its keys in the opposite order to the schema
+            rows = [dict(reversed(list(r.items()))) for r in rows]
         res.append((name, fl, rows))
     st = mkstate(res)
     if pk:
